@@ -115,6 +115,17 @@ contract(f"{DBF}::Database.commit", "commit",
          covers=["raised is None and result == True", "raised is None and result == False"],
          note="outside a 'with database:' block a commit is performed immediately; inside it is counted and deferred")
 
+for _shape, _et, _ev in (("no-exception", "None", "None"), ("exception", "ValueError", "ValueError('x')"),
+                         ("ignore-commits", "IgnoreCommitsCls", "IgnoreCommitsCls()")):
+    contract(f"{DBF}::Database.__exit__", f"__exit__.always-re-enables-commit[{_shape}]",
+             vars={"self": db(f"{IDB}::IdentityDatabase"), "IgnoreCommitsCls": EXPR(f"resolve_class('{DBF}::IgnoreCommits')")},
+             requires=["self._pending_commits >= 1"], call=f"self.__exit__({_et}, {_ev}, None)",
+             raises=["DatabaseException", "RuntimeError"],
+             ensures=["self._pending_commits == 0", f"result == {_shape != 'exception'}"],
+             ensures_raise=["self._pending_commits == 0"],
+             note="however a `with database:` block ends, commits are enabled again afterwards - the precondition of every insert contract "
+                  "(_pending_commits == 0) holds again, so one failed batch cannot silently defer every later commit")
+
 contract(f"{DBF}::Database.__exit__", "__exit__.commits-deferred",
          vars={"self": db(f"{IDB}::IdentityDatabase")}, requires=["self._pending_commits >= 1"],
          call="self.__exit__(None, None, None)", raises=[],
@@ -236,6 +247,48 @@ def insert_call_audit(ctx):
     rows.append(("insert-call-sites-found", len(rows) >= 5, f"{len(rows)} call sites of insert_* found"))
     return rows
 
+
+def no_deferred_insert_audit(ctx):
+    """No insert is made inside a `with <database>:` block (Database.__enter__ defers every commit until __exit__, and drops them when
+    the block is left by an exception): functions that (transitively, by name) reach an insert_* call are computed over
+    ipv8/attestation, and no `with` statement over a database object may call one of them in its body."""
+    import ast
+    funcs = {}
+    for rel in ctx.python_files("ipv8/attestation"):
+        for fn in [n for n in ast.walk(ctx.module(rel).tree) if isinstance(n, (ast.FunctionDef, ast.AsyncFunctionDef))]:
+            called = {(c.func.attr if isinstance(c.func, ast.Attribute) else getattr(c.func, "id", None))
+                      for c in ast.walk(fn) if isinstance(c, ast.Call)}
+            funcs.setdefault(fn.name, set()).update(x for x in called if x)
+    reaching = set(INSERT_ARITY)
+    changed = True
+    while changed:
+        changed = False
+        for name, called in funcs.items():
+            if name not in reaching and called & reaching:
+                reaching.add(name)
+                changed = True
+
+    def databaseish(e):
+        t = ast.unparse(e).lower()
+        return t.endswith("database") or t.endswith(".db") or t.endswith("_db") or t == "db" or "database(" in t
+
+    rows = []
+    for rel in ctx.python_files("ipv8"):
+        for w in [n for n in ast.walk(ctx.module(rel).tree) if isinstance(n, (ast.With, ast.AsyncWith))]:
+            if not any(databaseish(it.context_expr) for it in w.items):
+                continue
+            inner = {(c.func.attr if isinstance(c.func, ast.Attribute) else getattr(c.func, "id", None))
+                     for st in w.body for c in ast.walk(st) if isinstance(c, ast.Call)}
+            hit = sorted(x for x in inner if x in reaching)
+            rows.append((f"{rel}:{w.lineno}:with-database-block", not hit,
+                         f"{rel}:{w.lineno} `with {ast.unparse(w.items[0].context_expr)}:` calls {hit} - inserts inside the block are not "
+                         f"committed when they return"))
+    rows.append(("insert-reaching-functions-found", len(reaching) > len(INSERT_ARITY), f"{len(reaching)} functions reach an insert"))
+    return rows
+
+
+audit("no-insert-inside-a-deferring-block", no_deferred_insert_audit,
+      note="the per-insert commit is never deferred by an enclosing `with database:` block")
 
 audit("insert-call-sites", insert_call_audit,
       note="every stored record goes through an insert call of the form the commit contracts cover")
